@@ -8,6 +8,7 @@ and, when check IDs are given, runs ./check <ID> quick against the patched workt
 On success copies patch.diff, the demo and an extended meta.json to /verif/seeded/<name>/.
 /repo itself is never modified.
 """
+import hashlib
 import glob
 import json
 import os
@@ -105,8 +106,7 @@ try:
     result["checks"] = caught
 finally:
     sh("git -C /repo worktree remove --force %s" % wt)
-    for d in glob.glob("/verif/.build/alt-*"):
-        pass
+    shutil.rmtree("/verif/.build/alt-" + hashlib.sha1(wt.encode()).hexdigest()[:8], ignore_errors=True)
 ok = (result.get("demo_without_patch") == "pass" and result.get("build_with_patch") == "ok"
       and result.get("existing_tests_with_patch") == "ok" and result.get("demo_with_patch") == "fail")
 print("CONFIRMED" if ok else "NOT CONFIRMED", json.dumps(result))
